@@ -89,6 +89,33 @@ func c18Commands(u c18Unit) (cmds [][]string, keys [][]string, txn bool) {
 		return [][]string{{"SMOVE", k[0], k[1], "m"}}, [][]string{{k[0], k[1]}}, false
 	case "bitop":
 		return [][]string{{"BITOP", "AND", k[0], k[1]}}, [][]string{{k[0], k[1]}}, false
+	case "xgroup":
+		// container command: the key is the argument behind the subcommand
+		return [][]string{{"XGROUP", "CREATE", k[0], "g", "$", "MKSTREAM"}}, [][]string{{k[0]}}, false
+	case "sortstore":
+		// key positions that are not a fixed (first, last, step) range: option-introduced destinations,
+		// numkeys-counted lists, destination in front of a counted list
+		return [][]string{{"SORT", k[0], "LIMIT", "0", "5", "ALPHA", "STORE", k[1]}}, [][]string{{k[0], k[1]}}, false
+	case "sortstore2":
+		// STORE repeated: Redis takes the LAST destination
+		return [][]string{{"SORT", k[0], "STORE", k[0], "STORE", k[1]}}, [][]string{{k[0], k[1]}}, false
+	case "zunionstore":
+		return [][]string{{"ZUNIONSTORE", k[0], "2", k[1], k[0], "WEIGHTS", "1", "2"}}, [][]string{{k[0], k[1]}}, false
+	case "zinterstore1":
+		// numkeys 1: the argument behind the counted list is an option, not a key
+		return [][]string{{"ZINTERSTORE", k[0], "1", k[1], "AGGREGATE", "MAX"}}, [][]string{{k[0], k[1]}}, false
+	case "sunionstore":
+		return [][]string{{"SUNIONSTORE", k[0], k[1], k[0]}}, [][]string{{k[0], k[1]}}, false
+	case "pfmerge":
+		return [][]string{{"PFMERGE", k[0], k[1]}}, [][]string{{k[0], k[1]}}, false
+	case "lmpop":
+		return [][]string{{"LMPOP", "2", k[0], k[1], "LEFT", "COUNT", "1"}}, [][]string{{k[0], k[1]}}, false
+	case "geostore":
+		return [][]string{{"GEORADIUS", k[0], "0", "0", "1", "km", "COUNT", "3", "STOREDIST", k[1]}}, [][]string{{k[0], k[1]}}, false
+	case "copy":
+		return [][]string{{"COPY", k[0], k[1], "REPLACE"}}, [][]string{{k[0], k[1]}}, false
+	case "lmove":
+		return [][]string{{"LMOVE", k[0], k[1], "LEFT", "RIGHT"}}, [][]string{{k[0], k[1]}}, false
 	case "eval":
 		return [][]string{{"EVAL", "return 1", "2", k[0], k[1], "arg"}}, [][]string{{k[0], k[1]}}, false
 	case "evalA":
@@ -523,9 +550,10 @@ func runC18(t *testing.T, rep *mc.Reporter) {
 	}
 	var units []c18Unit
 	for _, k := range pool {
-		units = append(units, c18Unit{"set", []string{k}}, c18Unit{"foo", []string{k}})
+		units = append(units, c18Unit{"set", []string{k}}, c18Unit{"foo", []string{k}}, c18Unit{"xgroup", []string{k}})
 	}
-	for _, kind := range []string{"del", "mset", "rename", "smove", "bitop", "eval", "evalA", "evalB", "txn", "txndel", "txnflt", "delflt", "msetflt", "txndelflt"} {
+	for _, kind := range []string{"del", "mset", "rename", "smove", "bitop", "eval", "evalA", "evalB", "txn", "txndel", "txnflt", "delflt", "msetflt", "txndelflt",
+		"sortstore", "sortstore2", "zunionstore", "zinterstore1", "sunionstore", "pfmerge", "lmpop", "geostore", "copy", "lmove"} {
 		for _, a := range pool {
 			for _, b := range pool {
 				units = append(units, c18Unit{kind, []string{a, b}})
